@@ -323,21 +323,27 @@ end cascade
 
 /-! ### `_update_inout_ports` consumes what `to_hugr` produces -/
 
+/-- reference: pair the borrowed parameters with the extra ports by RANK among all borrowed
+    parameters, then keep the pairs whose argument is a place -/
+def inoutBindings (ps : List Param) (ports : List Nat) : List (Nat × Nat) :=
+  (((ps.filter (·.borrowed)).zip ports).filter (·.1.place)).map (fun q => (q.1.name, q.2))
+
 theorem updateInoutPorts_spec : ∀ (ps : List Param) (ports extra : List Nat),
     ports.length = (ps.filter (·.borrowed)).length →
-    updateInoutPorts ps (ports ++ extra) =
-      some (((ps.filter (·.borrowed)).map (·.name)).zip ports, extra)
+    updateInoutPorts ps (ports ++ extra) = some (inoutBindings ps ports, extra)
   | [], ports, extra, h => by
     have : ports = [] := List.eq_nil_of_length_eq_zero (by simpa using h)
-    subst this; simp [updateInoutPorts]
+    subst this; simp [updateInoutPorts, inoutBindings]
   | q :: ps, ports, extra, h => by
     by_cases hb : q.borrowed
     · cases ports with
       | nil => simp [hb] at h
       | cons w ws =>
         have h' : ws.length = (ps.filter (·.borrowed)).length := by simpa [hb] using h
-        simp [updateInoutPorts, hb, updateInoutPorts_spec ps ws extra h']
+        have ih := updateInoutPorts_spec ps ws extra h'
+        by_cases hp : q.place <;>
+          simp [updateInoutPorts, hb, ih, inoutBindings, hp]
     · have h' : ports.length = (ps.filter (·.borrowed)).length := by simpa [hb] using h
-      simp [updateInoutPorts, hb, updateInoutPorts_spec ps ports extra h']
+      simp [updateInoutPorts, hb, updateInoutPorts_spec ps ports extra h', inoutBindings]
 
 end GuppyVerif.Places
